@@ -112,7 +112,7 @@ def relations(out, m, A, B, Cu, mag, k, where, strict, tol_rt, tol_route, prop="
         out.inconclusive = "float-range"
         return False
     fm = Fraction(mag)
-    if fab != 0 and not (convgen.LO < abs(fab) < convgen.HI):
+    if (fab == 0 and fm != 0) or (fab != 0 and not (convgen.LO < abs(fab) < convgen.HI)):
         # the converted magnitude itself leaves the range in which doubles keep full precision
         out.inconclusive = "float-range"
         return False
@@ -145,7 +145,7 @@ def relations(out, m, A, B, Cu, mag, k, where, strict, tol_rt, tol_route, prop="
         aba, e4 = _conv(ab, A)
         if aba is not None:
             f = _frac(aba.magnitude)
-            if f is None or fab == 0:
+            if f is None or fab == 0 or f == 0 or not (convgen.LO < abs(f) < convgen.HI):
                 out.inconclusive = "float-range"
             elif _rel(f, fm) > tol_rt:
                 out.fail(f"{prop}:roundtrip:{where}", f"{mag!r} {A} -> {B} -> {A} = {aba.magnitude!r} (rel {_rel(f, fm):.3g} > {tol_rt:g})")
@@ -153,14 +153,14 @@ def relations(out, m, A, B, Cu, mag, k, where, strict, tol_rt, tol_route, prop="
         # (ii) route independence
         ac, e5 = _conv(q, Cu)
         fac = None if ac is None else _frac(ac.magnitude)
-        if ac is not None and (fac is None or (fac != 0 and not (convgen.LO < abs(fac) < convgen.HI))):
+        if ac is not None and (fac is None or (fac == 0 and fm != 0) or (fac != 0 and not (convgen.LO < abs(fac) < convgen.HI))):
             out.inconclusive = "float-range"
             ac = None
         if ac is not None:
             acb, e6 = _conv(ac, B)
             if acb is not None:
                 f = _frac(acb.magnitude)
-                if f is None or fab == 0:
+                if f is None or fab == 0 or f == 0 or not (convgen.LO < abs(f) < convgen.HI):
                     out.inconclusive = "float-range"
                 elif _rel(f, fab) > tol_route:
                     out.fail(f"{prop}:route:{where}", f"{mag!r} {A} -> {Cu} -> {B} = {acb.magnitude!r} but directly {ab.magnitude!r} (rel {_rel(f, fab):.3g} > {tol_route:g})")
